@@ -79,7 +79,13 @@ func PropC16(c *vs.Case, f Factory) error {
 	pd := env.W.Sim.Def(scn.Cfg.ParentResource)
 	steps := 2 + c.Int(4)
 	for s := 0; s < steps; s++ {
-		switch c.Weighted(5, 2, 2, 1) {
+		switch c.Weighted(5, 2, 2, 1, 1) {
+		case 4: // the finalize hook is added to / removed from the decorator
+			scn.Cfg.FinalizeHook = !scn.Cfg.FinalizeHook
+			if err := env.Restart(); err != nil {
+				return fmt.Errorf("harness: %v", err)
+			}
+			log = append(log, fmt.Sprintf("controller rebuilt, finalize hook=%v", scn.Cfg.FinalizeHook))
 		case 1: // someone edits the target's labels/annotations (may match / unmatch the selectors)
 			env.W.Sim.ExtUpdate(scn.Cfg.ParentResource, scn.ParentNS(), scn.ParentName(), func(o map[string]any) {
 				m := metaOfMap(o)
@@ -132,6 +138,26 @@ func PropC16(c *vs.Case, f Factory) error {
 			c.Class("not-selected")
 			if len(calls) > 0 || len(t.Writes()) > 0 {
 				return withTrace(vs.Violf("C16/decorated-unselected-object", "the target satisfies labelSelector=%v annotationSelector=%v only partly and carries no finalizer, but the sync called the hook %d times and wrote %v", scn.Cfg.ParentSelector, scn.Cfg.ParentAnnSel, len(calls), reqStrs(t.Writes())), t)
+			}
+			continue
+		}
+		if !matches && hasFin && !scn.Cfg.FinalizeHook {
+			// only the leftover finalizer made it ours: it is removed and the object is left alone
+			c.Class("leftover-finalizer-on-unselected-object")
+			c.NonTrivial()
+			if len(calls) > 0 {
+				return withTrace(vs.Violf("C16/decorated-unselected-object", "the target no longer satisfies the selectors and only carried a leftover finalizer (no finalize hook): the hook must not be called, but it was (%d calls)", len(calls)), t)
+			}
+			if after != nil && t.Err == nil {
+				a, b := stripServerFields(after), stripServerFields(before)
+				for _, o := range []map[string]any{a, b} {
+					m := o["metadata"].(map[string]any)
+					delete(m, "finalizers")
+					delete(m, "generation")
+				}
+				if !vs.JSONEqual(a, b) {
+					return withTrace(vs.Violf("C16/target-changed-unexpectedly", "an unselected target was modified beyond the finalizer removal\nbefore=%v\nafter =%v", b, a), t)
+				}
 			}
 			continue
 		}
